@@ -103,8 +103,8 @@ CLAIMS.update({
    technique="Lean 4 proof (generated panic-site coverage obligation, no-index-panic theorem, total model) + mutated-input / adversarial-program crash judge",
    ref="DESIGN.md §5 C08"),
  "C10": dict(
-   text="Lean theorems on the loader and retrieval model for documents of any size: every value reachable in a loaded document by the segments s1..sn carries exactly the pointer /s1/../sn (so a reported path resolves to the reported value); the retrieval steps (struct lookup, retrieve_index, [*] / .*) return values one segment further inside the document; an unresolved result names the value it stopped at, that value is in the document and the missing key / index does not resolve there. Judged on the real evaluator: generated function-free rule files x documents serialised as JSON, flow and block YAML with randomised layout - every reported from / traversed_to (and data-borne to) must resolve to exactly its value, the next queried segment must be absent at traversed_to, and every [L:l,C:c] of a scalar must equal the position an independent scanner (PyYAML composer) gives that scalar.",
-   note="Partial: source positions (libyaml marks) are not modelled, only judged; soundness of whole queries (filters, variables) rests on the step lemmas + correspondence, not on one end-to-end theorem.",
+   text="Lean theorems on the loader and retrieval model for documents of any size: every value reachable in a loaded document by the segments s1..sn carries exactly the pointer /s1/../sn (so a reported path resolves to the reported value); for every query made of keys, indices, [*], .* and this (no variables, no filters) and every fuel, scope state and case-conversion mode, each result of the evaluator model's queryRetrieval - resolved, or the point an unresolved result stopped at - sits in the document at the pointer it carries and no literal is produced (C10_plain_query_sound, by induction over the fuel-indexed mutual evaluator); an unresolved step names the value it stopped at, that value is in the document and the missing key / index does not resolve there. Judged on the real evaluator: generated function-free rule files x documents serialised as JSON, flow and block YAML with randomised layout - every reported from / traversed_to (and data-borne to) must resolve to exactly its value, the next queried segment must be absent at traversed_to, and every [L:l,C:c] of a scalar must equal the position an independent scanner (PyYAML composer) gives that scalar.",
+   note="Partial: source positions (libyaml marks) are not modelled, only judged; soundness of queries with filters or variables rests on the step lemmas + correspondence.",
    technique="Lean 4 proof of load-path soundness and retrieval-step closure + layout-randomised path/value/position judge",
    ref="DESIGN.md §5 C10"),
 })
